@@ -75,6 +75,12 @@ func c04OnAck(c *cluster, r *pubRec, o *ackObs) {
 		// in between. What must hold now: every in-sync replica the leader counts as having the
 		// message (its recorded progress covers the offset) really holds it, and at least the
 		// configured minimum number of replicas hold it.
+		// (known finding, see C02: a follower that cannot reach its leader when it starts following truncates
+		// to its own stale high watermark and so drops messages it has already reported as replicated)
+		tag := ""
+		if h.logHits["Failed to fetch last offset for leader epoch"] > 0 {
+			tag = "/after-hw-fallback-truncation"
+		}
 		have := 0
 		for id, v := range o.holders {
 			if v == r.value || v == "<down>" {
@@ -83,7 +89,7 @@ func c04OnAck(c *cluster, r *pubRec, o *ackObs) {
 			_ = id
 		}
 		if have < o.minISR {
-			h.fail("C04/all", "C04/all/below-min-isr", "ALL-policy ack for %s (offset %d) sent by srv%d while only %d replicas hold the message (minimum in-sync size %d; in-sync set %v; holders %v)", r.cid, a.Offset, o.from, have, o.minISR, o.isr, o.holders)
+			h.fail("C04/all", "C04/all/below-min-isr"+tag, "ALL-policy ack for %s (offset %d) sent by srv%d while only %d replicas hold the message (minimum in-sync size %d; in-sync set %v; holders %v)", r.cid, a.Offset, o.from, have, o.minISR, o.isr, o.holders)
 			return
 		}
 		for _, id := range o.isr {
@@ -95,7 +101,7 @@ func c04OnAck(c *cluster, r *pubRec, o *ackObs) {
 				h.s.Count("probe.ack_raced_with_isr_expansion")
 				continue // joined the in-sync set after the commit was decided
 			}
-			h.fail("C04/all", "C04/all/isr-member-lacks-message", "ALL-policy ack for %s (offset %d) sent by srv%d (epoch %d): the leader counts in-sync replica %s as holding offsets up to %d, but it holds %q at that offset (in-sync set %v)", r.cid, a.Offset, o.from, o.epoch, id, o.believed[id], trunc([]byte(v), 24), o.isr)
+			h.fail("C04/all", "C04/all/isr-member-lacks-message"+tag, "ALL-policy ack for %s (offset %d) sent by srv%d (epoch %d): the leader counts in-sync replica %s as holding offsets up to %d, but it holds %q at that offset (in-sync set %v)", r.cid, a.Offset, o.from, o.epoch, id, o.believed[id], trunc([]byte(v), 24), o.isr)
 			return
 		}
 	}
